@@ -86,9 +86,12 @@ def hard_bc_case(rng, Bs=(10, 12, 20, 30), nmin=6, nmax=11, tries=60):
     import math
     for _ in range(tries):
         B = rng.choice(Bs)
-        pool = [rng.randint(max(1, B // 6), B) for _ in range(rng.randint(2, 4))]
         n = rng.randint(nmin, nmax)
-        vals = [rng.choice(pool) for _ in range(n)]
+        if rng.random() < 0.5:
+            pool = [rng.randint(max(1, B // 6), B) for _ in range(rng.randint(2, 4))]
+            vals = [rng.choice(pool) for _ in range(n)]
+        else:       # all kinds of values (exact complements of the largest item among them)
+            vals = [rng.randint(1, B) for _ in range(n)]
         bins = []
         for x in sorted(vals, reverse=True):
             fit = [b for b in bins if sum(b) + x <= B]
